@@ -38,7 +38,8 @@ func run(r *vk.Run) {
 		"through bookingpb.ModelServer (ListBookings / PullBookings with booking_intersects). A case is distinct by (predicate, history, subscribe point, "+
 		"mode, drain set, mask) resp. the rendered booking script, and non-trivial when at least one write happened while the subscriber was open or the seed was non-empty.",
 		"phase 'equivalence': random histories of length 3-9 on a collection configured with an equivalence (same tag), judged modulo that equivalence: same members as List(include), held value equivalent to the listed one",
-		"single writer; the consumer is either free-running or parked at a quiescent, drained point, so which writes are merged by the lossy path is an enumerated variable",
+		"phase 'forced delete window': the one deliberate exception to the single writer: a Delete parked (build-tag hook) between its read and the write lock while an Update of the same item commits, for all 64 predicates",
+		"single writer otherwise; the consumer is either free-running or parked at a quiescent, drained point, so which writes are merged by the lossy path is an enumerated variable",
 		"every written value is unique (sequence number), the predicate reads only the tag field and the id",
 		"an absent item is not a member of the filtered collection whatever the predicate answers for a nil value",
 		"event change times and the values of OldValue on lossy (merged) events are not asserted")
@@ -56,6 +57,10 @@ func run(r *vk.Run) {
 	}
 	if r.Guard("C08/crash/multi-subscriber", "multi-subscriber scenarios") {
 		multiSubscriber(r)
+		r.Unguard()
+	}
+	if r.Guard("C08/crash/forced-delete-window", "delete racing an update inside its read-to-lock window") {
+		forcedDeleteWindow(r)
 		r.Unguard()
 	}
 	if r.Guard("C08/crash/equivalence", "include on a collection with an equivalence") {
